@@ -311,6 +311,50 @@ def _dd_case(rng):
     return ty, v, p, hourly
 
 
+def _dd_object_case(rng, ty=None, humid=None, large=None):
+    """Inputs of a real DesignDay: humidity type x humid/dry x large/small daily range x pressure.
+    humid = the dew point at the maximum dry bulb lies above the night-time minimum when the range is large
+    (so the profile is saturation-clamped for part of the day).  Values from the independent Magnus formula."""
+    ty = ty or rng.choice(['Dewpoint', 'Wetbulb', 'HumidityRatio', 'Enthalpy'])
+    humid = (rng.random() < 0.5) if humid is None else humid
+    large = (rng.random() < 0.5) if large is None else large
+    db_max = rng.choice([rng.uniform(20, 45), rng.uniform(-5, 20), rng.uniform(-30, -5), 32.0])
+    db_range = rng.uniform(8, 16) if large else rng.choice([0.0, rng.uniform(0, 3)])
+    p = _p(rng)
+    # target dew-point depression below the maximum dry bulb
+    dep = rng.uniform(0.5, 6.0) if humid else rng.uniform(12.0, 25.0)
+    dpt = db_max - dep
+    pw = magnus(dpt)
+    w = 0.622 * pw / (p - pw)
+    if ty == 'Dewpoint':
+        v = dpt
+    elif ty == 'Wetbulb':
+        # wet bulb with the target vapour pressure from the psychrometer relation (Magnus, independent of the code)
+        a, b = db_max - 60.0, db_max
+        for _ in range(50):
+            m = (a + b) / 2.0
+            if magnus(m) - p * 6.6e-4 * (db_max - m) > pw:
+                b = m
+            else:
+                a = m
+        v = b
+    elif ty == 'HumidityRatio':
+        v = w
+    else:
+        v = 1000.0 * (1.006 * db_max + w * (2501.0 + 1.86 * db_max))
+    return {'type': ty, 'value': v, 'p': p, 'db_max': db_max, 'db_range': db_range}
+
+
+def _make_designday(inp):
+    from ladybug.designday import DesignDay
+    from ladybug.location import Location
+    from ladybug.dt import Date
+    loc = Location('c09', '-', '-', 40.0, -75.0, -5.0, 10.0)
+    return DesignDay.from_design_day_properties(
+        'd', 'SummerDesignDay', loc, Date(7, 21), inp['db_max'], inp['db_range'], inp['type'], inp['value'],
+        inp['p'], 2.0, 180.0, 'ASHRAEClearSky', [1.0])
+
+
 def _corr_designday(ctx):
     from ladybug.designday import HumidityCondition
     rng = ctx.rng
@@ -677,6 +721,36 @@ def check_case(op, inp):
                 return _fail('day dew point consistent with the %s value %r' % (ty, v), got, clause='dd_roundtrip', type=ty)
         return None
 
+    if op == 'dd_object':
+        # the humidity profile of a real DesignDay object: the relations of the statement between
+        # hourly_dry_bulb, hourly_dew_point and hourly_relative_humidity
+        dd = _make_designday(inp)
+        ty = inp['type']
+        day = dd.humidity_condition.dew_point(dd.dry_bulb_condition.dry_bulb_max)
+        if day == -273.15:           # the humidity value describes no state (rh <= 0): outside the property
+            return None
+        dbs = list(dd.hourly_dry_bulb.values)
+        dps = list(dd.hourly_dew_point.values)
+        rhs = list(dd.hourly_relative_humidity.values)
+        if not _sub('ddobj_lengths', len(dbs) == len(dps) == len(rhs) == 24):
+            return _fail('24 hourly values each', [len(dbs), len(dps), len(rhs)], clause='ddobj_len', type=ty)
+        capped = any(d < day for d in dbs)
+        for h, (db, dp, rh) in enumerate(zip(dbs, dps, rhs)):
+            if not _sub('ddobj_dew_le_db', dp <= db):
+                return _fail('hourly dew point <= hourly dry bulb (hour %d: db %r)' % (h, db), dp,
+                             clause='ddobj_dew_le_db', type=ty, capped_day=capped)
+            if not _sub('ddobj_dew_is_day_or_db', dp == (day if day <= db else db)):
+                return _fail('hour %d: dew point = day dew point %r where that is below the dry bulb %r, else the '
+                             'dry bulb' % (h, day, db), dp, clause='ddobj_dew_profile', type=ty, capped_day=capped)
+            if not _sub('ddobj_rh_range', 0 < rh <= 100 + 1e-9):
+                return _fail('hour %d: 0 < rh <= 100 (db %r, dew point %r)' % (h, db, dp), rh,
+                             clause='ddobj_rh_range', type=ty, capped_day=capped)
+            want = ps.rel_humid_from_db_dpt(db, dp)
+            if not _sub('ddobj_rh_consistent', abs(rh - want) <= 1e-9 * max(1.0, abs(want))):
+                return _fail('hour %d: rh = rel_humid_from_db_dpt(hourly_dry_bulb, hourly_dew_point) = %r' % (h, want),
+                             rh, clause='ddobj_rh_consistent', type=ty, capped_day=capped)
+        return None
+
     if op == 'chart':
         par = tuple(inp['par'])
         tv, rv = inp['t'], inp['rh']
@@ -746,6 +820,14 @@ FIXED = [
                    'hourly': [32.0 - 10.0 * abs(math.sin(i / 7.0)) for i in range(24)] + []}),
     ('designday', {'type': 'Dewpoint', 'value': 18.0, 'p': 101325.0,
                    'hourly': [15.0 + i / 2.0 for i in range(24)]}),
+    # real DesignDay objects: humid day with a large range (saturation-clamped at night), all 4 humidity types
+    ('dd_object', {'type': 'Wetbulb', 'value': 27.0, 'p': 101325.0, 'db_max': 32.0, 'db_range': 12.0}),
+    ('dd_object', {'type': 'Dewpoint', 'value': 24.0, 'p': 101325.0, 'db_max': 28.0, 'db_range': 12.0}),
+    ('dd_object', {'type': 'HumidityRatio', 'value': 0.0185, 'p': 101325.0, 'db_max': 32.0, 'db_range': 12.0}),
+    ('dd_object', {'type': 'Enthalpy', 'value': 79500.0, 'p': 101325.0, 'db_max': 32.0, 'db_range': 12.0}),
+    ('dd_object', {'type': 'Wetbulb', 'value': 27.0, 'p': 84000.0, 'db_max': 32.0, 'db_range': 2.0}),
+    ('dd_object', {'type': 'Dewpoint', 'value': 11.0, 'p': 101325.0, 'db_max': 34.9, 'db_range': 11.3}),  # dry day
+    ('dd_object', {'type': 'Dewpoint', 'value': -12.0, 'p': 70000.0, 'db_max': -8.0, 'db_range': 10.0}),  # below 0 C
 ]
 
 
@@ -792,6 +874,13 @@ def _oracle_cases(ctx):
     for _ in range(n // 10):
         ty, v, p, hourly = _dd_case(rng)
         yield 'designday', {'type': ty, 'value': v, 'p': p, 'hourly': hourly}
+    for _ in range(25 if big else 3):
+        for ty in ('Dewpoint', 'Wetbulb', 'HumidityRatio', 'Enthalpy'):
+            for humid in (True, False):
+                for large in (True, False):
+                    c = _dd_object_case(rng, ty, humid, large)
+                    ctx.count('ddobj:%s:%s:%s' % (ty, 'humid' if humid else 'dry', 'large' if large else 'small'))
+                    yield 'dd_object', c
     for _ in range(300 if big else 15):
         par = _chart_params(rng)
         tv, rv = _chart_data(rng, par)
